@@ -738,6 +738,11 @@ fn judge(case: &Case, tgt: Tgt, pipe: Option<&XPipe>, out: &rssl::CompiledPipeli
                 fails.push(Fail { class: "entry-name-ambiguous", detail: format!("2 declarations named `{}` in the request", b.name) });
                 continue;
             }
+            if source.is_some_and(|(_, r)| shared_names.contains(r.name.as_str())) {
+                // a generated name whose base name two input declarations share: not attributable from outside
+                hist.add("binding=not-attributable");
+                continue;
+            }
             // flags that only the input declaration carries
             if let Some((idx, r)) = source {
                 if b.is_bindless != r.bl {
